@@ -3,7 +3,7 @@ K = 'github.com/ProjectSerenity/firefly/kernel'
 
 PROP = {
     'pkg': K + '/device/acpi/aml',
-    'tests': [{'name': 'TestVerifC12', 'checks_quick': 20000, 'checks_thorough': 600000}],
+    'tests': [{'name': 'TestVerifC12', 'checks_quick': 120000, 'checks_thorough': 1500000}],
     'fuzz': [{'name': 'FuzzVerifC12', 'seconds': 150}],
     'rule': 'three sources, every parse executed in a persistent child process (a stack overflow is a fatal error in Go): '
             '(a) byte strings biased to opcode bytes, name characters, prefix bytes and PkgLength lead bytes; (b) '
